@@ -44,6 +44,7 @@ const (
 	KMatrix         = "Matrix"
 	KCodec          = "Codec"
 	KQMisuse        = "QMisuse"
+	KRegistry       = "Registry"
 )
 
 // API paths (Op.P).
